@@ -1,23 +1,29 @@
 """Drivers of table-sim: C07 (name resolution), C08 (row selection), C14 (derivations)."""
 from ..common import rng_for, digest, tuplify
-from .gen import TGen, gen_table, ALPHABETS
+from .gen import TGen, gen_table, ALPHABETS, MIXED_ALPHABETS
 from .engine import step
 from .world import TWorld, TViolation
 
-W_C07 = {"warm": 10, "get": 40, "labels": 6, "setcell": 22, "setcol": 10, "delcol": 3, "reindex": 3, "d_rows": 2, "d_copy": 1, "sel": 4}
-W_C08 = {"sel": 50, "compose": 14, "setcell": 6, "setcol": 5, "d_rows": 6, "warm": 3, "get": 3, "reindex": 1}
+W_C07 = {"warm": 10, "get": 40, "labels": 6, "setcell": 22, "setslice": 8, "setcol": 10, "delcol": 3, "reindex": 3, "d_rows": 2, "d_copy": 1, "sel": 4}
+W_C08 = {"sel": 50, "compose": 14, "setcell": 6, "setslice": 2, "setcol": 5, "d_rows": 6, "warm": 3, "get": 3, "reindex": 1}
 W_C14 = {"d_rows": 14, "d_cols": 12, "d_add": 7, "d_mul": 5, "d_concat": 5, "d_copy": 6, "d_t": 4, "expr": 12,
-         "setcol": 10, "setcell": 8, "delcol": 4, "sel": 3, "reindex": 1, "get": 2}
+         "setcol": 10, "setcell": 8, "setslice": 3, "delcol": 4, "sel": 3, "reindex": 1, "get": 2, "ctor": 6}
 
 
 def _case(ctx, run, prop, weights, faults_p, sizes):
     rc = rng_for(ctx.seed, prop, run, "cfg")
-    cfg = {"alphabet": rc.choice(ALPHABETS), "sizes": sizes(rc), "faults": rc.random() < faults_p,
+    cfg = {"alphabet": rc.choice(ALPHABETS) if rc.random() < 0.75 else rc.choice(MIXED_ALPHABETS), "sizes": sizes(rc),
+           "faults": rc.random() < faults_p, "fixed_width": (prop == "C07" and rc.random() < 0.15),
            "n_ops": rc.randint(5, 40) if ctx.tier == "quick" else rc.randint(5, 100)}
     w = dict(weights)
     for k in list(w):
         if rc.random() < 0.15 and k not in ("get", "sel", "d_rows", "setcell"):
             w[k] = 0
+    if cfg["fixed_width"]:
+        # derivations that rebuild the table through the checked constructor would cast the index column to objects
+        for k in ("d_copy", "d_cols", "d_add", "d_mul", "d_concat", "d_t", "reindex"):
+            w[k] = 0
+        cfg["faults"] = False
     cfg["weights"] = w
     rt = rng_for(ctx.seed, prop, run, "tables")
     tables = [gen_table(rt, cfg, cfg["alphabet"]) for _ in range(rc.randint(1, 3))]
@@ -26,9 +32,18 @@ def _case(ctx, run, prop, weights, faults_p, sizes):
 
 
 def case_from_json(j):
-    return {"cfg": j["cfg"], "tables": [{"cols": [tuple([c[0], c[1], list(c[2])]) for c in t["cols"]], "index": t["index"],
-                                        "scalars": [tuple(x) for x in t.get("scalars", [])]} for t in j["tables"]],
-            "ops": [tuplify(o) for o in j["ops"]]}
+    def tab(t):
+        out = {"cols": [tuple([c[0], c[1], list(c[2])]) for c in t["cols"]], "index": t["index"],
+               "scalars": [tuple(x) for x in t.get("scalars", [])]}
+        if t.get("fixed_width"):
+            out["fixed_width"] = True
+        return out
+
+    def opj(o):
+        if o[0] == "ctor":
+            return ("ctor", tab(o[1]), o[2])
+        return tuplify(o)
+    return {"cfg": j["cfg"], "tables": [tab(t) for t in j["tables"]], "ops": [opj(o) for o in j["ops"]]}
 
 
 def _execute(ctx, case, prop, nontrivial_tags):
@@ -60,7 +75,7 @@ class C07:
 
     @staticmethod
     def execute(ctx, case):
-        return _execute(ctx, case, "C07", ("setcell_index", "setcol_index", "reindex"))
+        return _execute(ctx, case, "C07", ("setcell_index", "setcol_index", "reindex", "setslice_index"))
 
 
 class C08:
